@@ -352,7 +352,7 @@ Proof.
              - intros j w Hl. rewrite RD. now apply M2.
              - rewrite (input_data_core _ _ RS RD). exact P2. }
            right. exists (S g). simpl. unfold defs_of in *; simpl in *.
-           rewrite El, Ec, Hli, A2. unfold none_check. now rewrite Ec, Ea.
+           rewrite El, Ec, Hli, A2. unfold none_check. now rewrite Ea.
         -- unfold store_value in Hs.
            assert (H' : (r, st') = (Val v, pop_frame (upd_data st2 (set_data (s_data st2) i v)))).
            { rewrite <- H. destruct v; [reflexivity|]. destruct (cl_allow_none cl) eqn:Ea; [reflexivity|].
@@ -363,7 +363,7 @@ Proof.
            assert (Hni2 : mem_item i (s_inputs st2) = false)
              by (now rewrite (static_inputs _ _ S2)).
            assert (Hnone : none_check cl v = Val v).
-           { unfold none_check. rewrite Ec. destruct v; [reflexivity|].
+           { unfold none_check. destruct v; [reflexivity|].
              destruct (cl_allow_none cl) eqn:Ea; [reflexivity|]. exfalso.
              unfold store_value in Hs; try rewrite Ea in Hs; discriminate. }
            assert (Hsp : exists g', spec_eval g' st2 i = Val v).
@@ -383,17 +383,31 @@ Proof.
                rewrite (filter_set_data (fun x => mem_item x (s_inputs st2))) by assumption.
                exact P2. }
            exists (S g). simpl. unfold defs_of in *; simpl in *. now rewrite El, Ec, Hli, A2.
-      * inv_pair.
-        destruct (pop_frame_fields st2) as (PS & PD & PK & _).
-        split; [eapply Inv_core; eauto|].
-        split.
-        { repeat split.
-          - congruence.
-          - rewrite PK, K2. reflexivity.
-          - intros j w Hl. rewrite PD. now apply M2.
-          - rewrite (input_data_core _ _ PS PD). exact P2. }
-        exists (S g). simpl. unfold defs_of in *; simpl in *.
-        rewrite El, Ec, A2. unfold none_check. now rewrite Ec.
+      * assert (Hcase : (v = VNone /\ cl_allow_none cl = false /\ (r, st') = (Err KNone, rollback_frame st2 0)) \/
+                        (none_check cl v = Val v /\ (r, st') = (Val v, pop_frame st2))).
+        { unfold none_check. destruct v; [right; split; [reflexivity|now rewrite <- H]|].
+          destruct (cl_allow_none cl); [right; split; [reflexivity|now rewrite <- H]|left; repeat split; now rewrite <- H]. }
+        destruct Hcase as [(-> & Ea & H')|(Hnone & H')]; inversion H'; subst r st'; clear H'.
+        -- destruct (rollback_frame_fields st2 0) as (RS & RD & RK & _).
+           split; [eapply Inv_core; eauto|].
+           split.
+           { repeat split.
+             - congruence.
+             - rewrite RK, K2. reflexivity.
+             - intros j w Hl. rewrite RD. now apply M2.
+             - rewrite (input_data_core _ _ RS RD). exact P2. }
+           right. exists (S g). simpl. unfold defs_of in *; simpl in *.
+           rewrite El, Ec, A2. unfold none_check. now rewrite Ea.
+        -- destruct (pop_frame_fields st2) as (PS & PD & PK & _).
+           split; [eapply Inv_core; eauto|].
+           split.
+           { repeat split.
+             - congruence.
+             - rewrite PK, K2. reflexivity.
+             - intros j w Hl. rewrite PD. now apply M2.
+             - rewrite (input_data_core _ _ PS PD). exact P2. }
+           exists (S g). simpl. unfold defs_of in *; simpl in *.
+           now rewrite El, Ec, A2.
     + destruct (IHb _ _ _ _ _ _ _ _ _ Eb ltac:(discriminate) I1) as (I2 & F2 & A2).
       change (defs_of st1) with (defs_of st) in A2. change (input_data st1) with (input_data st) in A2.
       destruct F2 as (S2 & K2 & M2 & P2).
